@@ -722,7 +722,126 @@ func objNonNilOnEdge(cond ssa.Value, si int, arg ssa.Value) bool {
 
 // ---- R-MAPORDER ------------------------------------------------------------------
 
+// codecMapOrder: Go maps handed to the embedded encoder (the diff produced by
+// CreateMergePatch is one) come out in one fixed order: the encoder collects
+// the entries, sorts them with a comparator that compares the resolved key
+// strings themselves with <, and writes them in the order of that slice. The
+// key strings are the map keys (their text), never an encoded form whose
+// spelling depends on an option.
+func codecMapOrder(c *Ctx, b *Body) {
+	l := c.L
+	if b.Codec == nil {
+		return
+	}
+	me := b.method(b.Codec, "mapEncoder", "encode")
+	key := "codec mapEncoder: entries are written in the order of a sort on the resolved key strings"
+	if me == nil {
+		l.add("R-MAPORDER", "codec", key, "", Undecided, "mapEncoder.encode not found", false)
+		return
+	}
+	bad := "no sort of the collected entries"
+	allInstrs(me, func(i ssa.Instruction) {
+		call, ok := i.(*ssa.Call)
+		if !ok {
+			return
+		}
+		f := call.Call.StaticCallee()
+		if f == nil {
+			return
+		}
+		n := stdName(f)
+		if n != "sort.Slice" && n != "sort.SliceStable" && n != "slices.SortFunc" {
+			return
+		}
+		var less *ssa.Function
+		for _, a := range call.Call.Args {
+			if mc, ok := a.(*ssa.MakeClosure); ok {
+				less, _ = mc.Fn.(*ssa.Function)
+			}
+		}
+		if less == nil {
+			bad = "the comparator of the sort is not a closure of the function"
+			return
+		}
+		// the comparator returns a < of two loads of one string field of two elements
+		fieldCmp := ""
+		for _, r := range liveReturns(less) {
+			bo, ok := r.Results[0].(*ssa.BinOp)
+			if !ok || bo.Op != token.LSS {
+				bad = "the comparator does not return a plain < of two key strings (at " + b.posOf(r) + ")"
+				return
+			}
+			_, f1, ok1 := fieldLoad(bo.X)
+			_, f2, ok2 := fieldLoad(bo.Y)
+			if !ok1 || !ok2 || f1 != f2 {
+				bad = "the comparator does not compare the same field of two entries"
+				return
+			}
+			fieldCmp = f1.Type + "." + f1.Field
+		}
+		if fieldCmp == "" {
+			return
+		}
+		// every store to that field stores the key's own text
+		okStores := true
+		nSt := 0
+		for _, fn := range b.srcFuncs(b.Codec) {
+			allInstrs(fn, func(j ssa.Instruction) {
+				st, ok := j.(*ssa.Store)
+				if !ok {
+					return
+				}
+				fa, ok := st.Addr.(*ssa.FieldAddr)
+				if !ok {
+					return
+				}
+				fr := fieldOfAddr(fa)
+				if fr.Type+"."+fr.Field != fieldCmp {
+					return
+				}
+				nSt++
+				v := st.Val
+				if cv, ok := v.(*ssa.Convert); ok {
+					v = cv.X
+				}
+				if ex, ok := v.(*ssa.Extract); ok {
+					v = ex.Tuple
+				}
+				c2, ok := v.(*ssa.Call)
+				if !ok {
+					okStores = false
+					bad = "the sort key is assigned " + describeValue(st.Val) + " at " + b.posOf(st)
+					return
+				}
+				name := ""
+				if g := c2.Call.StaticCallee(); g != nil {
+					name = stdName(g)
+				} else if c2.Call.IsInvoke() {
+					name = "invoke " + c2.Call.Method.Name()
+				}
+				switch name {
+				case "(reflect.Value).String", "reflect.(Value).String", "strconv.FormatInt", "strconv.FormatUint", "invoke MarshalText":
+				default:
+					okStores = false
+					bad = "the sort key is the result of " + name + " at " + b.posOf(st) + ", not the text of the map key itself: an order that depends on how the key is encoded (escaping) is not the standard library's, and changes with the HTML-escape switch"
+				}
+			})
+		}
+		if okStores && nSt > 0 {
+			bad = ""
+		}
+	})
+	if bad != "" {
+		l.add("R-MAPORDER", "codec", key, b.rel(me.Pos()), Violated, bad, true)
+	} else {
+		l.add("R-MAPORDER", "codec", key, b.rel(me.Pos()), Discharged, "sort with `<` on the key-text field, which is only ever assigned the key's String()/FormatInt/FormatUint/MarshalText", true)
+	}
+}
+
 func ruleMapOrder(c *Ctx) {
+	if c.V5 != nil {
+		codecMapOrder(c, c.V5)
+	}
 	for _, b := range c.bodies() {
 		l := c.L
 		ea := c.errFor(b)
